@@ -1260,6 +1260,10 @@ func (g *Gen) callOf(f *Func, depth int) *CallE {
 		g.touch(v)
 	}
 	g.feat("call.helper")
+	if g.calledFns == nil {
+		g.calledFns = map[*Func]int{}
+	}
+	g.calledFns[f]++
 	if g.writes[f] && g.fx != nil {
 		g.fx.sideFx = true
 	}
